@@ -11,7 +11,7 @@ from .. import space as sp
 from ..engine import Fail
 
 
-def built(model, route='A'):
+def built(model, route=None):
     """Build the real model for a shadow and validate the trace against the implementation:
     observe(build(shadow)) must equal the shadow and the identity-level tree invariants
     must hold.  Returns (fm, fails)."""
